@@ -52,3 +52,8 @@ package main
 //@ invariant[C16] forall(k, r0, recvd(recorderChannel), WroteBlock(gb("wr", writer), gb("wroff", writer)[c0 + k - r0], contents(blocks[k]), offof(blocks[k]), len(blocks[k])) && gb("wroff", writer)[c0 + k - r0] == ite(k == r0, w0, gb("wroff", writer)[c0 + k - r0 - 1] + len(blocks[k-1])) && gb("wroff", writer)[c0 + k - r0] + len(blocks[k]) <= gc("wr", writer) && gb("wroff", writer)[c0 + k - r0] >= w0)
 //@ invariant[C16] gc("wr", writer) == ite(recvd(recorderChannel) == r0, w0, gb("wroff", writer)[gc("wrcalls", writer) - 1] + len(blocks[recvd(recorderChannel) - 1]))
 //@ decreases[C07,C16] feedlen(recorderChannel) - recvd(recorderChannel)
+
+// start wires the pass-through loop to the recorder: the one goroutine it starts runs the recorder stage
+// (that it is waited for is the join obligation).
+//@ func start
+//@ spawns[C16] recorder
